@@ -985,5 +985,20 @@ example : delayTableOfJson (fun b => (b : ℚ)) [("left", .num "3" 3), ("u_turn"
     some [none, none, none, none, some 3, none, none, some 19] := by decide +kernel
 example : delayTableOfJson (fun b => (b : ℚ)) [("straight", .num "3" 3)] = none := by decide +kernel
 
+/-! ### Non-vacuity: the delay-table configuration in serde's positional form -/
+
+example :
+    Build.turnDelayModelOfJson (fun b => (b : ℚ))
+        (.arr [.str "tabular_discrete", .obj [("left", .num "2.0" 2)], .str "seconds"]) =
+      Build.turnDelayModelOfJson (fun b => (b : ℚ))
+        (.obj [("type", .str "tabular_discrete"), ("table", .obj [("left", .num "2.0" 2)]),
+               ("time_unit", .obj [("seconds", .obj [])])]) ∧
+    (Build.turnDelayModelOfJson (fun b => (b : ℚ))
+        (.arr [.str "tabular_discrete", .obj [("left", .num "2.0" 2)], .str "seconds"])).isSome ∧
+    Build.turnDelayModelOfJson (fun b => (b : ℚ))
+        (.arr [.str "tabular_discrete", .obj [("left", .num "2.0" 2)]]) = none := by
+  decide +kernel
+
+
 end C03
 end Compass
